@@ -416,6 +416,127 @@ def rule_pivot(F, rep):
                       "pivot other than the first element, elements equal to it change their relative order" % n, site)
 
 
+def _deps(body, defs, names, l, seen=None):
+    """user variables a local is computed from (through arithmetic, copies, tuple fields and `.get()` / `.len()` calls)"""
+    seen = seen if seen is not None else set()
+    if l in seen:
+        return set()
+    seen.add(l)
+    out = set()
+    ty = body.local_ty(l)
+    if l in names:
+        out.add(names[l])
+        if ty["k"] == "ref" or l <= body.argc:
+            return out
+    d = defs.get(l, [])
+    if len(d) != 1:
+        return out
+    rv = d[0]
+
+    def op(x):
+        if isinstance(x, dict) and x.get("k") in ("move", "copy"):
+            return _deps(body, defs, names, x["l"], seen)
+        return set()
+    k = rv["k"]
+    if k in ("use", "cast", "unop"):
+        out |= op(rv.get("x") or rv.get("a"))
+    elif k == "binop":
+        out |= op(rv["a"]) | op(rv["b"])
+    elif k == "ref":
+        out |= _deps(body, defs, names, rv["p"]["l"], seen)
+    elif k == "agg":
+        for x in rv["xs"]:
+            out |= op(x)
+    elif k == "callres":
+        # only scalar getters carry a dependency; an iterator item (`enumerate().next()`) is not "computed from" the cursor
+        f = rv.get("f") or ""
+        if f.endswith("Cell>::get") or f.endswith("::len") or f.endswith("Deref>::deref"):
+            for x in rv["xs"]:
+                out |= op(x)
+    return out
+
+
+def rule_flush(F, rep):
+    from . import cfg
+    R = rep.rule("C17.R4", "when a sort step copies the rest of a run (`run[cursor..]`) into the output, the output position is "
+                 "computed from that run's cursor: the number of items already taken from the run decides where its rest goes, so "
+                 "an index that does not depend on the cursor overwrites merged items")
+    n = 0
+    for fn in F.fn_list:
+        if fn.body is None or "do_std_sort" not in fn.q or "::{closure" in fn.q:
+            continue
+        body = fn.body
+        names = body.local_names()
+        defs = {}
+        for bi, blk in enumerate(body.blocks):
+            if blk["cleanup"]:
+                continue
+            for st in blk["s"]:
+                if st["k"] == "assign" and not st["p"]["p"]:
+                    defs.setdefault(st["p"]["l"], []).append(st["rv"])
+            t = blk["t"]
+            if t["k"] == "call" and not t["dst"]["p"]:
+                defs.setdefault(t["dst"]["l"], []).append({"k": "callres", "xs": t["xs"], "f": callee_name(t)})
+        # sites: RangeFrom { start } aggregates
+        sites = []
+        for bi, blk in enumerate(body.blocks):
+            if blk["cleanup"]:
+                continue
+            for st in blk["s"]:
+                if st["k"] == "assign" and st["rv"]["k"] == "agg" and st["rv"].get("adt", "").endswith("ops::range::RangeFrom"):
+                    x = st["rv"]["xs"][0]
+                    if x.get("k") in ("move", "copy"):
+                        cur = {nm for nm in _deps(body, defs, names, x["l"])}
+                        def is_cell_ref(l):
+                            t = body.local_ty(l)
+                            if t["k"] != "ref":
+                                return False
+                            t2 = body.ty(t["t"]) if "t" in t else None
+                            return bool(t2) and t2["k"] == "adt" and t2.get("d") == "core::cell::Cell"
+                        cursors = {nm for nm in cur if any(names.get(l) == nm and is_cell_ref(l) for l in names)}
+                        if cursors:
+                            sites.append((bi, cursors))
+        stops = [b for b, _ in sites]
+        for bi, cursors in sites:
+            region = cfg.reachable(body.succ_map(), [bi], blocked_nodes=[b for b in stops if b != bi])
+            for b in sorted(region):
+                t = body.blocks[b]["t"]
+                if body.blocks[b]["cleanup"] or t["k"] != "call" or not (callee_name(t) or "").endswith("Cell>::set"):
+                    continue
+                # receiver: result of an Index::index call; its index argument
+                recv = t["xs"][0]
+                idx_deps = None
+                l = recv.get("l")
+                for _ in range(6):
+                    d = defs.get(l, [])
+                    if len(d) != 1:
+                        break
+                    rv = d[0]
+                    if rv["k"] == "callres" and (rv.get("f") or "").endswith("Index>::index"):
+                        ix = rv["xs"][1]
+                        idx_deps = _deps(body, defs, names, ix["l"]) if ix.get("k") in ("move", "copy") else set()
+                        break
+                    if rv["k"] in ("use", "cast") and rv["x"].get("k") in ("move", "copy"):
+                        l = rv["x"]["l"]
+                        continue
+                    if rv["k"] == "ref":
+                        l = rv["p"]["l"]
+                        continue
+                    break
+                if idx_deps is None:
+                    continue
+                n += 1
+                missing = sorted(cursors - idx_deps)
+                ok = not missing
+                rep.ob(R, "%s|flush@bb%d" % (fn.q, b), ok, {"fn": fn.q, "run_cursor": sorted(cursors), "index_depends_on": sorted(idx_deps)})
+                if not ok:
+                    rep.violation(R, "%s|flush-index-ignores|%s" % (fn.q, ",".join(missing)),
+                                  "%s copies the rest of a run starting at cursor %s, but the output index is computed from %s only: "
+                                  "items already taken from that run are not accounted for and merged entries are overwritten"
+                                  % (fn.q, "/".join(missing), sorted(idx_deps)), fn.loc)
+    rep.floor(R, n, 2, "run-flush copy loops")
+
+
 def run(F, rep, tier):
     R = rep.rule("C17.R1", "tie-break / advance decision tables of merge, partition, minArray, maxArray and the set "
                  "walks equal the ones the contracts require (stability, first-minimal/maximal, union/inter/diff)")
@@ -426,6 +547,7 @@ def run(F, rep, tier):
     rep.floor(R, rep.rules[R]["obligations"], 20, "table rows")
     rule_member(F, rep)
     rule_pivot(F, rep)
+    rule_flush(F, rep)
     from . import c08
     c08.rule_r4(F, rep)      # the ordering primitive the sort/set walks pop their `Ordering` from: array state machines
     c08.rule_r4b(F, rep)
